@@ -209,9 +209,14 @@ def check(pid, tier, seed):
     bad_ax = [a for a in aud if not a["ok"]]
     if lean_ok and bad_ax:
         R.violation({"broken": "axiom audit", "theorems": bad_ax}, "axioms", no_input=True)
+    hubcov = None
+    if pid == "C11":
+        from . import hubprop
+        hubcov = hubprop.hub_part(R, "C11", tier, seed)
     R.coverage = {
-        "obligations": len(obligations),
-        "discharged": discharged,
+        "obligations": len(obligations) + (hubcov["obligations"] if hubcov else 0),
+        "discharged": discharged + (hubcov["discharged"] if hubcov else 0),
+        "hub_registry_part": hubcov,
         "checker_cmd": "cd /verif/lean && lake build ShipVerif  (certificate shards by `decide +kernel`); lake env lean Audit.lean (#print axioms)",
         "trusted_base": C.TRUSTED_BASE,
         "theorems": aud,
